@@ -14,7 +14,8 @@
    Error codes only name the failing check; they are not part of the tie.
 
    Definitions only -- no proofs in this file. *)
-From CR Require Export Model.Types Base.IP.
+From CR Require Export Model.Types.
+From CR Require Export Base.IP.
 Local Open Scope Z_scope.
 
 (* ---------------------------------------------------------------- lexed atoms *)
